@@ -31,6 +31,24 @@ import (
 	"github.com/zenon-network/go-zenon/protocol/fetcher"
 )
 
+// blocksMsgByteLimit caps the payload of a BlocksMsg reply (the list header takes at most 9 bytes)
+const blocksMsgByteLimit = ProtocolMaxMsgSize - 16
+
+// blocksMsgSize is the number of bytes a momentum takes in a BlocksMsg
+// (SendBlocks does not send the content of the genesis momentum)
+func blocksMsgSize(block *nom.DetailedMomentum) int {
+	if block.Momentum.Height == 1 {
+		genesis := *block.Momentum
+		genesis.Content = nil
+		block = &nom.DetailedMomentum{Momentum: &genesis}
+	}
+	size, _, err := rlp.EncodeToReader(block)
+	if err != nil {
+		return ProtocolMaxMsgSize
+	}
+	return size
+}
+
 func errResp(code errCode, format string, v ...interface{}) error {
 	return fmt.Errorf("%v - %v", code, fmt.Sprintf(format, v...))
 }
@@ -305,6 +323,7 @@ func (pm *ProtocolManager) handleMsg(p *peer) error {
 			hash   types.Hash
 			hashes []types.Hash
 			blocks []*nom.DetailedMomentum
+			bytes  int
 		)
 		for {
 			err := msgStream.Decode(&hash)
@@ -317,6 +336,13 @@ func (pm *ProtocolManager) handleMsg(p *peer) error {
 
 			// Retrieve the requested block, stopping if enough was found
 			if block := pm.chainman.GetBlock(hash); block != nil {
+				// keep the reply within the message size every peer accepts (ProtocolMaxMsgSize):
+				// the remote side re-requests what was not delivered
+				size := blocksMsgSize(block)
+				if bytes+size > blocksMsgByteLimit {
+					break
+				}
+				bytes += size
 				blocks = append(blocks, block)
 				if len(blocks) >= downloader.MaxBlockFetch {
 					break
